@@ -213,6 +213,14 @@ int32 parseClientHello(ssl_t *ssl, unsigned char **cp, unsigned char *end)
                 SSL_HS_RANDOM_SIZE,
                 PS_TRUE);
 
+        if (ssl->sessionCacheRef)
+        {
+            /* A new ClientHello on a connection that still holds a cache
+               entry (re-handshake): give the reference back before sessionId
+               is replaced by what the client offers now; a resumption or a
+               new registration takes its own reference below. */
+            matrixClearSession(ssl, 0);
+        }
         ssl->sessionIdLen = *c; c++; /* length verified with + 1 above */
         /*      If a session length was specified, the client is asking to
             resume a previously established session to speed up the handshake */
